@@ -243,6 +243,12 @@ def main(argv=None):
         if name not in seen and args.only in name and not any(name.startswith(r['fid']) and r['error'] for r in results):
             run.notes.append('baseline obligation no longer generated: %s' % name)
 
+    for m in getattr(spec, 'CONTRACT_MODULES', []):
+        importlib.import_module(m)
+    for fid, c in dsl.REGISTRY.items():
+        if getattr(c, 'assumed', False) and args.prop in c.props:
+            run.assumptions.append('assumed contract (not verified): %s - %s' % (fid, c.note))
+
     # ---- bounded stand-ins
     bjobs = [b for b in getattr(spec, 'bounded_jobs', lambda tier, seed: [])(tier, seed)
              if args.only in b.get('name', '')]
